@@ -63,7 +63,7 @@ static void work(unsigned long seed, int rounds, const std::string &luafile, std
   Model lm; if (!luafile.empty()) { Addons::LuaModelReadFromFile(luafile.c_str(), &lm, false); }
   for (int k = 0; k < rounds; k++) {
     VectorNd q = rq(m, r), qd = rv(m.qdot_size, r), qdd = rv(m.qdot_size, r), tau = rv(m.qdot_size, r);
-    switch (r.i(12)) {
+    switch (r.i(14)) {
       case 0: { VectorNd t = VectorNd::Zero(m.qdot_size); InverseDynamics(m, q, qd, qdd, t); put(o, t); break; }
       case 1: { VectorNd a = VectorNd::Zero(m.qdot_size); ForwardDynamics(m, q, qd, tau, a); put(o, a); break; }
       case 2: { MatrixNd H = MatrixNd::Zero(m.qdot_size, m.qdot_size); CompositeRigidBodyAlgorithm(m, q, H); put(o, H); break; }
@@ -77,6 +77,9 @@ static void work(unsigned long seed, int rounds, const std::string &luafile, std
       case 9: { VectorNd a = VectorNd::Zero(m.qdot_size); CalcMInvTimesTau(m, q, tau, a, true); put(o, a); break; }
       case 10: { if (lm.dof_count) { VectorNd lq = VectorNd::Zero(lm.q_size), lz = VectorNd::Zero(lm.qdot_size), t = VectorNd::Zero(lm.qdot_size);
                  for (unsigned i = 0; i < lm.q_size; i++) lq[i] = r.u(-1, 1); InverseDynamics(lm, lq, lz, lz, t); put(o, t); } break; }
+      case 11: { VectorNd a = VectorNd::Zero(m.qdot_size); ForwardDynamicsLagrangian(m, q, qd, tau, a, (Math::LinearSolver)(1 + r.i(3))); put(o, a); break; }
+      case 12: { MatrixNd G = MatrixNd::Zero(3, m.qdot_size); CalcPointJacobian(m, q, last, Vector3d(0.1, 0.2, 0), G, true); put(o, G);
+                 put3(o, CalcBaseToBodyCoordinates(m, q, last, Vector3d(0.3, 0.2, 0.1), true)); break; }
       default: { Addons::Geometry::SmoothSegmentedFunction f;
                  Addons::Muscle::MuscleFunctionFactory::createFiberActiveForceLengthCurve(0.5, 0.75, 1.0, 1.5 + r.u(0, 0.2), 0.1, 0.75, r.u(0, 1), "fal", f);
                  double x = r.u(0.3, 1.8); o.push_back(f.calcValue(x)); o.push_back(f.calcDerivative(x, 1)); o.push_back(f.calcDerivative(x, 2)); break; }
